@@ -83,6 +83,48 @@ Proof.
     destruct kr; rs_solve).
 Qed.
 
+(* ---- lengths ----------------------------------------------------------------- *)
+Lemma value_len_is_source :
+  src_value_len_ok = true ->
+  forall h kr, header_in_range h -> request_valid h kr = true ->
+  src_value_len (h_bodylen h) (h_keylen h) (h_extlen h) = Some (value_len h).
+Proof.
+  intros Hok h kr R V. unfold src_value_len_ok in Hok.
+  gated Hok (unfold src_value_len, value_len; unfold request_valid, MAX_EXTRAS, MAX_KEY in V;
+    destruct h as [mg op kl el dt vb bl oq cs]; unfold header_in_range in R;
+    cbn [h_magic h_opcode h_dtype h_keylen h_extlen h_bodylen] in *;
+    repeat (apply Bool.andb_true_iff in V; destruct V as [V ?]);
+    repeat match goal with H : negb _ = true |- _ => apply Bool.negb_true_iff in H end;
+    repeat match goal with
+           | H : N.ltb _ _ = false |- _ => apply N.ltb_ge in H
+           | H : N.ltb _ _ = true |- _ => apply N.ltb_lt in H
+           end;
+    rs_solve).
+Qed.
+
+Lemma incdec_required_is_source :
+  src_incdec_required_ok = true ->
+  forall h, header_in_range h -> src_incdec_required (h_keylen h) = Some (20 + h_keylen h).
+Proof.
+  intros Hok h R. unfold src_incdec_required_ok in Hok.
+  gated Hok (unfold src_incdec_required;
+    destruct h as [mg op kl el dt vb bl oq cs]; unfold header_in_range in R;
+    cbn [h_magic h_opcode h_dtype h_keylen h_extlen h_bodylen] in *;
+    rs_solve).
+Qed.
+
+Lemma set_required_is_source :
+  src_set_required_ok = true ->
+  forall h, header_in_range h ->
+  src_set_required (h_keylen h) (value_len h) = Some (8 + h_keylen h + value_len h).
+Proof.
+  intros Hok h R. unfold src_set_required_ok in Hok.
+  gated Hok (unfold src_set_required, value_len;
+    destruct h as [mg op kl el dt vb bl oq cs]; unfold header_in_range in R;
+    cbn [h_magic h_opcode h_dtype h_keylen h_extlen h_bodylen] in *;
+    rs_solve).
+Qed.
+
 (* ---- the comparisons with the item size limit ----------------------------- *)
 Lemma size_guards_all :
   src_size_guards_ok = true ->
